@@ -25,6 +25,11 @@ def run(chk):
     chk.add_tlc(r)
     p = vlib.run_tlc("MC_ConnCache", "MC_ConnCache_pinned.cfg", timeout=600)
     chk.cov["model_counterexample_pinned_design"] = str(p["violated"])
+    # negative control: a closeAll that skips connections left without regions must break ClosedIsTerminal in the model
+    nc = vlib.run_tlc("MC_ConnCache", "MC_ConnCache_closenonempty.cfg", timeout=600)
+    if nc["violated"] != "ClosedIsTerminal":
+        raise vlib.MachineryError("MC_ConnCache_closenonempty: expected the ClosedIsTerminal counter-example, got %r" % (nc["violated"],))
+    chk.cov["model_counterexample_close_skips_regionless_connection"] = str(nc["violated"])
     res = run_driver(chk, 300 if thorough else 40)
     for v in res["violations"] or []:
         chk.violation(v["sig"], v["desc"], dict(kind="c19", detail=v))
